@@ -4,6 +4,7 @@
 #include "asn1c_save.h"
 #include "asn1c_ioc.h"
 #include "asn1c_naming.h"
+#include <asn1fix_export.h>
 
 static void default_logger_cb(int, const char *fmt, ...);
 static int asn1c_compile_expr(arg_t *arg, const asn1c_ioc_table_and_objset_t *);
@@ -40,6 +41,22 @@ asn1_compile(asn1p_t *asn, const char *datadir, const char *destdir, enum asn1c_
 			arg->ns = asn1_namespace_new_from_module(mod, 0);
 
 			compiler_streams_t *cs = NULL;
+
+			/*
+			 * A class reference assignment, "REF-ID ::= TYPE-IDENTIFIER",
+			 * looks like a type reference but defines no type:
+			 * there is nothing to emit for it.
+			 */
+			if(arg->expr->meta_type == AMT_TYPEREF
+			&& arg->expr->expr_type == A1TC_REFERENCE
+			&& !arg->expr->lhs_params) {
+				asn1p_expr_t *terminal = WITH_MODULE_NAMESPACE(
+					arg->expr->module, expr_ns,
+					asn1f_find_terminal_type_ex(arg->asn, expr_ns,
+						arg->expr));
+				if(terminal && terminal->expr_type == A1TC_CLASSDEF)
+					arg->expr->meta_type = AMT_OBJECTCLASS;
+			}
 
 			if(asn1c_attach_streams(arg->expr))
 				return -1;
